@@ -3218,18 +3218,48 @@ PIP_Solution_Node::solve(const PIP_Problem& pip,
           return nullptr;
         }
         else {
-          // t_node unfeasible, f_node feasible:
-          // restore cs and aps into f_node (i.e., this).
-          PPL_ASSERT(f_node == this);
-          swap(f_node->constraints_, cs);
-          swap(f_node->artificial_parameters, aps);
-          // Add f_test to constraints.
-          f_node->add_constraint(f_test, all_params);
+          // t_node unfeasible, f_node feasible.
 #ifdef NOISY_PIP_TREE_STRUCTURE
           indent_and_print(std::cerr, indent_level,
                            "=== EXIT: THEN BRANCH UNFEASIBLE: SWAP BRANCHES\n");
 #endif
-          return f_node;
+          // NOTE: the resolution of f_node may have added to it tautologies
+          // and artificial parameters, or it may have replaced it by a
+          // decision node: these must be kept when restoring `cs' and `aps'.
+          const PIP_Decision_Node* const decision_node_p
+            = dynamic_cast<PIP_Decision_Node*>(f_node);
+          if (decision_node_p != nullptr
+              && decision_node_p->false_child != nullptr) {
+            // A decision node having both children can only have a single
+            // constraint: do NOT merge, create a new decision node.
+            PIP_Tree_Node* const parent
+              = new PIP_Decision_Node(f_node->get_owner(), nullptr, f_node);
+            // Restore into parent `cs' and `aps'.
+            swap(parent->constraints_, cs);
+            swap(parent->artificial_parameters, aps);
+            // Add f_test to parent's constraints.
+            parent->add_constraint(f_test, all_params);
+            return parent;
+          }
+          else {
+            // Merge f_node with its (virtual) parent:
+            // a) append into `cs' the constraints of f_node;
+            for (Constraint_System::const_iterator
+                   i = f_node->constraints_.begin(),
+                   i_end = f_node->constraints_.end(); i != i_end; ++i) {
+              cs.insert(*i);
+            }
+            // b) append into `aps' the parameters of f_node;
+            aps.insert(aps.end(),
+                       f_node->artificial_parameters.begin(),
+                       f_node->artificial_parameters.end());
+            // c) swap the updated `cs' and `aps' into f_node.
+            swap(cs, f_node->constraints_);
+            swap(aps, f_node->artificial_parameters);
+            // d) add f_test to f_node's constraints.
+            f_node->add_constraint(f_test, all_params);
+            return f_node;
+          }
         }
       }
       else if (f_node == nullptr) {
